@@ -26,6 +26,20 @@ def bodyOf (buf : Bytes) : Body :=
 /-- `ServerContext::handle_request` for one raw message, nothing taken from the real decoder. -/
 def serve (cfg : Config) (src : Ip) (buf : Bytes) : Gate := handleRequest cfg src buf (bodyOf buf)
 
+/-- The other public way in: `Request::from_bytes` (header, question, body — `Err` if any of them
+fails) followed by `<Catalog as RequestHandler>::handle_request` on the result, without the gate of
+`ServerContext` in front (no QR / opcode gate, no access list).  `none`: `from_bytes` failed. -/
+def catalogEntry (cat : Catalog) (buf : Bytes) : Option Gate :=
+  match readHeader buf with
+  | none => none
+  | some h =>
+    match readQueries buf h.qd with
+    | .ok q =>
+      (match bodyOf buf with
+       | .bad => none
+       | .ok edns => some (catalogHandle cat h q edns))
+    | _ => none
+
 /-- what the two decoders say about the message once header and question are readable — printed
 on every reply line so that the body verdict is compared with the real decoder's even where a
 gate in front of it (opcode, access list) decides the response -/
